@@ -68,6 +68,11 @@ Mantissa(w, f, b) == LET fr == FracR(Strip(f), 1) IN Q(Whole(w, b) * fr.d + fr.n
 Scale10(m, k, down) == IF down THEN Q(m.n, m.d * IPow(10, k)) ELSE Q(m.n * IPow(10, k), m.d)
 ExpDown(l) == l.es \in {2, 3}
 
+(* A scientific literal may carry a FRACTIONAL exponent (specification 4.2.2).  With the fraction .5 the value             *)
+(* m * 10^(+-(k + 1/2)) is irrational, but it is the positive real whose SQUARE is the rational below: that rational is   *)
+(* what the specification states about such a literal, and what an observed value is judged by.                          *)
+HalfExpSquare(m, k, down) == Scale10(QMul(m, m), 2 * k + 1, down)
+
 Magnitude(l) ==
   CASE l.form \in {"int", "flt", "bas", "cpx"} -> Mantissa(l.w, l.f, l.base)
     [] l.form = "sci" -> Scale10(Mantissa(l.w, l.f, 10), Whole(l.e, 10), ExpDown(l))
